@@ -314,6 +314,52 @@ def order_config_checks(case, r, rb, out):
                             what="rows no ordering rule mentions changed their relative order: %r -> %r" % (a, b)))
 
 
+def oc_rank_check(case, oc, out):
+    """order_config at every depth: rows matched by at most one rule of the rules ordering their block are sorted by the
+    reference key (index of that rule, negative for a row in negated form; 0 when no rule mentions the row; negated
+    rows before direct ones on ties)"""
+    oraw = [r for r in rbgen.raw_ordering(case["otext"]) if r["normal"]]
+    info = rbgen.vendor_info(case["vendor"])
+    rev = info["reverse"]
+
+    def plain(rules):
+        return all(not r["order_reverse"] and not r["scope"] and plain([x for x in r["children"] if x["normal"]]) for r in rules)
+    if not plain(oraw):
+        return
+
+    def walk(items, rules, path):
+        keys = []
+        for row, ch in items:
+            hits = []
+            for i, r in enumerate(rules):
+                d = c07.ref_match(r["row"], row)
+                n = c07.ref_match(neg_of(r["row"], rev), row)
+                if d == "outside" or n == "outside":
+                    return
+                if d is not None or n is not None:
+                    hits.append(i)
+            direct = not row.startswith(rev)
+            if row == info["exit"]:
+                keys.append(None)
+            elif len(hits) <= 1:
+                o = hits[0] if hits else 0
+                keys.append((o if direct else -o, direct, row))
+            else:
+                keys.append(None)
+            if ch:
+                sub = ref_effective_children(rules, row, rev)
+                if sub is not None:
+                    walk(ch, sub, path + (row,))
+        ks = [k for k in keys if k is not None]
+        for a, b in zip(ks, ks[1:]):
+            if (a[0], a[1]) > (b[0], b[1]):
+                out.append(dict(sig="order-config-rank-order",
+                                what="order_config puts %r (reference key %r) before %r (key %r) in block %r" % (
+                                    a[2], a[:2], b[2], b[:2], path)))
+                return
+    walk(oc, oraw, ())
+
+
 def oracle(case, r):
     rbgen.setup()
     if "err" in r:
@@ -331,6 +377,7 @@ def oracle(case, r):
     removal_first_check(case, pt, pre, rb, out)
     independence_check(case, pt, out, random.Random(len(case["ptext"]) * 7 + len(pt)))
     order_config_checks(case, r, rb, out)
+    oc_rank_check(case, r["ordered"], out)
     seen, uniq = set(), []
     for v in out:
         if v["sig"] not in seen:
